@@ -490,6 +490,8 @@ def probe_worker(cfg):
                 ocp.set_value(pc, ca.DM(cfg["pc"]).T)
             if cfg.get("g") is not None:
                 ocp.set_value(gg, cfg["g"])
+            if cfg.get("method") == "DC" and cfg.get("with_bsvar"):
+                ocp.set_initial(w, 0.75)        # a constant guess for a bspline variable
             if cfg.get("method") == "DC":
                 ocp.method(rockit.DirectCollocation(N=N, M=1, degree=1, scheme="legendre"))
             else:
@@ -505,6 +507,8 @@ def probe_worker(cfg):
             g = np.array(g).reshape(-1)
             out["g"] = sorted(float(v_) for v_ in g)
             out["p_refined"] = np.array(pr).reshape(-1).tolist()
+            if cfg.get("method") == "DC" and cfg.get("with_bsvar"):
+                out["w_guess"] = np.array(ocp.initial_value(ocp.sample(w, grid="control")[1])).reshape(-1).tolist()
     except Exception as e:
         out["error"] = "%s: %s" % (type(e).__name__, str(e)[:300])
     return out
@@ -542,6 +546,9 @@ def judge_probe(cfg, r):
     if len(exp) != len(r["g"]) or not all(engine.close(a, b, rtol=1e-8) for a, b in zip(r["g"], exp)):
         return [{"what": "a grid='bspline' parameter inside the dynamics does not enter the gap-closing / collocation constraints with "
                          "its own value at the interval start / collocation time", "residuals": r["g"], "expected": exp}]
+    if "w_guess" in r and not all(engine.close(v, 0.75) for v in r["w_guess"]):
+        return [{"what": "DirectCollocation: set_initial(w, 0.75) for a grid='bspline' variable is not the starting value of w",
+                 "start values of w on the control grid": r["w_guess"]}]
     tref = [k / N + q / (2.0 * N) for k in range(N) for q in range(2)] + [1.0]
     pexp = [cdb_value(knots, d, c, t) for t in tref]
     if len(pexp) != len(r["p_refined"]) or not all(engine.close(a, b, rtol=1e-8) for a, b in zip(r["p_refined"], pexp)):
